@@ -479,6 +479,20 @@ def run_check(prop, tier, seed):
     with open(os.path.join(EVIDENCE, f"{prop}.json"), "w") as f:
         json.dump(ev, f, indent=1)
 
+    # worker logs are only needed while the run is being evaluated (witnesses have been copied into the replay files)
+    if not os.environ.get("VERIF_KEEP_RUN"):
+        for t in tasks:
+            for f in glob.glob(os.path.join(RUNDIR, t.label + ".*")):
+                try:
+                    os.unlink(f)
+                except OSError:
+                    pass
+        if _OUT != VERIF:
+            try:
+                os.rmdir(RUNDIR)
+            except OSError:
+                pass
+
     # 6. verdict
     log(f"[done] {prop} {tier}: cases={evaluations} distinct_nontrivial={len(nontrivial_hashes)} new_violations={len(new)} "
         f"known={sum(len(v) for v in attributed.values())} inconclusive={len(inconclusive)} build={t_built - t_start:.0f}s run={t_ran - t_built:.0f}s")
